@@ -142,9 +142,14 @@ package datastore
 //@   ghost pRepo dvid.RepoID = arbitrary()
 //@   ghost pVer dvid.VersionID = arbitrary()
 //@   ghost pInst dvid.InstanceID = arbitrary()
-//@   ensures result1 == old(m.versionID) && m.versionID == old(m.versionID) + 1
-//@   ensures has(m.versionToUUID, result1) && m.versionToUUID[result1] == result0 && has(m.uuidToVersion, result0) && m.uuidToVersion[result0] == result1
-//@   ensures assign != nil ==> result0 == old(*assign)
+//@   ghost dup bool = false
+//@   ghostset at "return dvid.NilUUID, 0, ErrExistingUUID": dup = true
+//@   ensures assign != nil && old(has(m.uuidToVersion, *assign)) ==> dup
+//@   ensures dup ==> result2 != nil && m.versionID == old(m.versionID)
+//@   ensures dup ==> (forall v dvid.VersionID :: has(m.versionToUUID, v) == old(has(m.versionToUUID, v))) && (forall u dvid.UUID :: has(m.uuidToVersion, u) == old(has(m.uuidToVersion, u)) && m.uuidToVersion[u] == old(m.uuidToVersion[u]))
+//@   ensures !dup ==> result1 == old(m.versionID) && m.versionID == old(m.versionID) + 1
+//@   ensures !dup ==> has(m.versionToUUID, result1) && m.versionToUUID[result1] == result0 && has(m.uuidToVersion, result0) && m.uuidToVersion[result0] == result1 && !old(has(m.uuidToVersion, result0))
+//@   ensures !dup && assign != nil ==> result0 == old(*assign)
 //@   ensures forall v dvid.VersionID :: v != result1 ==> (has(m.versionToUUID, v) == old(has(m.versionToUUID, v)))
 //@   ensures !m.readOnly && result2 == nil ==> pVer == m.versionID
 
